@@ -66,18 +66,52 @@ func setAt(doc interface{}, toks []string, v interface{}) interface{} {
 	return cp
 }
 
-type optSnapshot struct {
-	RelativeBase             string
-	Skip, Continue, Absolute bool
-	LoaderPtr                uintptr
-}
+// optSnapshot is everything an option structure holds, exported or not, read field by field through reflection (a hidden
+// field that a call fills in is a change of the caller's structure as well): scalars by value, functions, pointers, maps and
+// slices by identity and length.
+type optSnapshot string
 
 func snapOpts(o *spec.ExpandOptions) optSnapshot {
-	s := optSnapshot{RelativeBase: o.RelativeBase, Skip: o.SkipSchemas, Continue: o.ContinueOnError, Absolute: o.AbsoluteCircularRef}
-	if o.PathLoader != nil {
-		s.LoaderPtr = reflect.ValueOf(o.PathLoader).Pointer()
+	rv := reflect.ValueOf(o).Elem()
+	var sb strings.Builder
+	for i := 0; i < rv.NumField(); i++ {
+		f := rv.Field(i)
+		fmt.Fprintf(&sb, "%s=", rv.Type().Field(i).Name)
+		switch f.Kind() {
+		case reflect.String:
+			fmt.Fprintf(&sb, "%q", f.String())
+		case reflect.Bool:
+			fmt.Fprintf(&sb, "%v", f.Bool())
+		case reflect.Int, reflect.Int8, reflect.Int16, reflect.Int32, reflect.Int64:
+			fmt.Fprintf(&sb, "%d", f.Int())
+		case reflect.Uint, reflect.Uint8, reflect.Uint16, reflect.Uint32, reflect.Uint64, reflect.Uintptr:
+			fmt.Fprintf(&sb, "%d", f.Uint())
+		case reflect.Float32, reflect.Float64:
+			fmt.Fprintf(&sb, "%v", f.Float())
+		case reflect.Func, reflect.Ptr, reflect.UnsafePointer, reflect.Chan:
+			if f.IsNil() {
+				sb.WriteString("nil")
+			} else {
+				fmt.Fprintf(&sb, "@%x", f.Pointer())
+			}
+		case reflect.Map, reflect.Slice:
+			if f.IsNil() {
+				sb.WriteString("nil")
+			} else {
+				fmt.Fprintf(&sb, "@%x/len=%d", f.Pointer(), f.Len())
+			}
+		case reflect.Interface:
+			if f.IsNil() {
+				sb.WriteString("nil")
+			} else {
+				fmt.Fprintf(&sb, "(%s)", f.Elem().Type())
+			}
+		default:
+			fmt.Fprintf(&sb, "<%s>", f.Kind())
+		}
+		sb.WriteString(" ")
 	}
-	return s
+	return optSnapshot(sb.String())
 }
 
 // c10IDScope: an element whose schema carries an id and, next to it, a relative $ref: every entry point reads that $ref in the scope
